@@ -23,6 +23,9 @@ atomic machine — so `conn_conforms`, `peer_window_exact`, … apply to it — 
 drives the real `ClientConn` through a gate that parks its writer at the chosen octet
 (`harness/internal__http2/zz_verif_c06_gate_test.go`) and compares the frames.
 
+`XOp.feedCancel fid n cut` is the first family again for the request's TRAILER block (the last
+body octets are handed to the writer, which then writes the trailers under `cc.wmu`).
+
 `Variant` names the two ways of getting this wrong that the seeded changes are instances of;
 the counter-example theorems of `Req.Props.C06Cut` show the strict peer rejecting each.
 -/
@@ -45,6 +48,9 @@ inductive XOp where
   | plain (op : Op)
   | openCancel (r : Req) (cut : Nat)
   | held (fid n : Nat) (o : Op)
+  /-- the body writer of stream `fid` is handed its last `n` octets, writes them and starts on
+  the request's trailers; the request is cancelled after `cut` octets of the trailer block -/
+  | feedCancel (fid n cut : Nat)
   deriving DecidableEq, Repr, Inhabited
 
 /-- payload octets of a frame of a header block -/
@@ -81,6 +87,16 @@ def scriptEvents (st : State) (op : Op) : List Event :=
   let (_, fs3) := pumpAll st2 ((st2.streams.drop st1.streams.length).map (·.id))
   (if st.closed then [] else opEvents op fs0) ++ (fs1 ++ fs2 ++ fs3).map Event.c
 
+def isBlockFrame : Frame → Bool
+  | .headers .. => true
+  | .continuation .. => true
+  | _ => false
+
+/-- the frames of a feed step (DATA frames, then possibly a trailer block) with the trailer block
+written by a loop that looks at the cancellation -/
+def cutTrailerBlock (cut : Nat) (fs : List Frame) : List Frame :=
+  fs.takeWhile (fun f => !isBlockFrame f) ++ writeBlock true cut 0 (fs.dropWhile (fun f => !isBlockFrame f))
+
 def isConnCreditEv : Event → Bool
   | .c f => isConnCredit f
   | .p _ => false
@@ -101,6 +117,13 @@ def xstepE (v : Variant) (st : State) : XOp → State × List Event
     -- (`closeTryLock`: a writer was parked, so `cc.wmu` was taken: the committed credit is not written)
     ((scriptStep st1 o).1,
      e1 ++ (if v.closeTryLock ∧ !(clientFrames e1).isEmpty then e2.filter (fun e => !isConnCreditEv e) else e2))
+
+  | .feedCancel fid n cut =>
+    let st1 := (scriptStep st (.feed fid n)).1
+    let e1 := scriptEvents st (.feed fid n)
+    ((scriptStep st1 (.cancel fid)).1,
+     (if v.cancelBetweenFrames then (cutTrailerBlock cut (clientFrames e1)).map Event.c else e1) ++
+       scriptEvents st1 (.cancel fid))
 
 def xstep (v : Variant) (st : State) (x : XOp) : State × List Frame :=
   ((xstepE v st x).1, clientFrames (xstepE v st x).2)
@@ -128,5 +151,6 @@ def XOp.ok : XOp → Prop
   | .plain op => op.ok
   | .openCancel r _ => 0 < r.hdrLen
   | .held _ _ o => o.ok
+  | .feedCancel _ _ _ => True
 
 end Req.H2.Cut
